@@ -308,7 +308,14 @@ def run(tier, seed):
     mirs = [common.dump_mir('mimium_lang')[0], common.dump_mir('state_tree')[0]]
     rng = random.Random(seed)
     base = shapes(1, 2)
-    deep = shapes(2, 2)
+    # every unary nesting up to depth 3 (container in container in container, width <= 1): encoders like to special-case
+    # one-element aggregates, and random sampling of the wide depth-2 space almost never hits a given one
+    seen = set(shape_str(x) for x in base)
+    for x in shapes(2, 1) + shapes(3, 1):
+        if shape_str(x) not in seen:
+            seen.add(shape_str(x))
+            base.append(x)
+    deep = [x for x in shapes(2, 2) if shape_str(x) not in seen]
     rng.shuffle(deep)
     sel = base + deep[: (300 if quick else 4000)]
     chunks = [sel[i::32] for i in range(32)]
@@ -339,7 +346,7 @@ def run(tier, seed):
             if len(rep.samples) < 8 and r['checks'] > 1:
                 rep.samples.append(dict(shape=r['shape'], payload_equalities=r['checks'], status=r['status']))
     cov = dict(states=max(1, npaths), transitions=max(1, rep.stats['queries'] + nchecks), traces_validated_against_impl=rep.replays, value_shapes=nshapes, payload_equalities=nchecks,
-               bounds='all value shapes of depth <= 1 / width <= 2 plus %d seeded shapes of depth 2 / width <= 2 over the 14 Value constructors; Number payloads, tags, string / key / code ids symbolic' % (len(sel) - len(base)))
+               bounds='all value shapes of depth <= 1 / width <= 2, all shapes of depth <= 3 / width <= 1, plus %d seeded shapes of depth 2 / width <= 2 over the 14 Value constructors; Number payloads, tags, string / key / code ids symbolic' % (len(sel) - len(base)))
     assumptions = ['the string interner is stubbed as a bijection: Symbol::as_str / to_string / ToSymbol::to_symbol are mutually inverse on symbolic ids',
                    'bincode + serde derive for FfiValue and the hand-written serde impls for TypeNodeId / ExprNodeId are NOT encoded (byte buffers, visitors, global interner): outside the claim',
                    'opaque payloads of the five non-transferable constructors are not inspected']
